@@ -164,3 +164,120 @@ def _replay(defi, rep, splits):
                      "record assembly gives %r" % (defi, rep, splits, "optional" if OPT_LIST else "required",
                                                    "optional" if OPT_ELEM else "required", got, want)
     return False, "agrees"
+
+
+# ------------------------------------------------------------------------------------------------------
+# The page loop around the assembler: real core.read_col + real schema.SchemaHelper on the schema shape.
+# read_col derives `null`, `null_val`, `max_defi` from the schema and carries the row index across pages.
+import fastparquet.core as core
+from fastparquet import parquet_thrift
+from fastparquet.schema import SchemaHelper
+
+
+def _schema():
+    rep_list = 1 if OPT_LIST else 0        # FieldRepetitionType: REQUIRED=0 OPTIONAL=1 REPEATED=2
+    rep_elem = 1 if OPT_ELEM else 0
+    return [parquet_thrift.SchemaElement(name="schema", num_children=1),
+            parquet_thrift.SchemaElement(name="col", num_children=1, repetition_type=rep_list, converted_type=3),
+            parquet_thrift.SchemaElement(name="list", num_children=1, repetition_type=2),
+            parquet_thrift.SchemaElement(name="element", type=2, repetition_type=rep_elem)]
+
+
+class _Levels(rt.MV):
+    def __len__(self):
+        return len(self.items)
+
+
+class _Assign(rt.MV):
+    class dtype:
+        kind = "O"
+
+
+class _PH:
+    def __init__(self, n):
+        self.type = parquet_thrift.PageType.DATA_PAGE
+        self.data_page_header = parquet_thrift.DataPageHeader(num_values=n, encoding=parquet_thrift.Encoding.PLAIN)
+
+
+class _InIO:
+    def __init__(self, pages):
+        self.pages, self.k = pages, 0
+
+    def tell(self):
+        return self.k
+
+
+class _Raw:
+    def seek(self, off):
+        pass
+
+    def read(self, n):
+        return b""
+
+
+PAGES = [None]
+
+
+class _EncNS:
+    _assemble_objects = staticmethod(assemble)
+
+    @staticmethod
+    def NumpyIO(buf):
+        return _InIO(PAGES[0])
+
+
+class _TO:
+    @staticmethod
+    def from_buffer(infile, name):
+        d, r, v = infile.pages[infile.k]
+        return _PH(len(d))
+
+
+def _s_read_data_page(infile, schema_helper, ph, cmd, skip_nulls=False, selfmade=False):
+    d, r, v = infile.pages[infile.k]
+    infile.k += 1
+    return _Levels(d), _Levels(r), v
+
+
+def run_read_col(defi, rep, splits):
+    nrows = sum(1 for r in rep if r == 0)
+    assign = _Assign([None] * nrows)
+    pages, vi = [], 0
+    bounds = [0] + list(splits) + [len(rep)]
+    for a, b in zip(bounds[:-1], bounds[1:]):
+        if a == b:
+            continue
+        d, r = defi[a:b], rep[a:b]
+        nv = sum(1 for x in d if x == MAXD and x >= THR)
+        pages.append((d, r, [100 + vi + j for j in range(nv)]))
+        vi += nv
+    PAGES[0] = pages
+    md = parquet_thrift.ColumnMetaData(type=2, path_in_schema=["col", "list", "element"], num_values=len(rep),
+                                       data_page_offset=4, total_compressed_size=100)
+    col = parquet_thrift.ColumnChunk(meta_data=md)
+    saved = (core.encoding, core.ThriftObject, core.read_data_page)
+    core.encoding, core.ThriftObject, core.read_data_page = _EncNS, _TO, _s_read_data_page
+    try:
+        core.read_col(col, HELPER, _Raw(), assign=assign)
+    finally:
+        core.encoding, core.ThriftObject, core.read_data_page = saved
+    return assign.items
+
+
+HELPER = SchemaHelper(_schema())
+
+
+def h_read_col_list(defi: List[int], rep: List[int], split: int) -> bool:
+    """
+    pre: len(defi) == N and len(rep) == N and 0 <= split < N
+    pre: valid(defi, rep)
+    post: __return__
+    """
+    # split == 0: a single page
+    return run_read_col(defi, rep, [split] if split else []) == dremel(defi, rep)
+
+
+def replay_h_read_col_list(defi, rep, split):
+    """a real file: LIST column written by a spec-level page builder, read through ParquetFile.to_pandas"""
+    from vf.pyxlift import nested_file
+    return nested_file.replay_list(defi, rep, [split] if split else [], OPT_LIST, OPT_ELEM, MAXD, dremel(defi, rep))
